@@ -113,10 +113,11 @@ def get_datetime_info(value):
 
 
 def _split_offset(value):
-    offset = re.search(r'\d*((\+(1[0-4]|0[0-9])|(-(1[0-2]|0[0-9])))([0-5][0-9]))$', value)
+    # the UTC offset ranges from -1200 to +1400
+    offset = re.search(r'\d*((\+(1400|(1[0-3]|0[0-9])[0-5][0-9]))|(-(1200|(1[0-1]|0[0-9])[0-5][0-9])))$', value)
     if offset:
         offset = offset.groups()[0]
-        return value.replace(offset, ''), offset
+        return value[:-len(offset)], offset
     return value, ''
 
 
